@@ -217,7 +217,7 @@ fn run(ctx: &mut Ctx) {
         let cfg = match i % 4 {
             0 => ProgCfg { nframes: 0, nreg: 2, max_len: 8, rf_pct: 0, cf_pct: 0, bad_permille: 0 },
             1 => ProgCfg { nframes: 3, nreg: 2, max_len: 10, rf_pct: 35, cf_pct: 8, bad_permille: 5 },
-            2 => ProgCfg { nframes: 5, nreg: 3, max_len: 14, rf_pct: 50, cf_pct: 12, bad_permille: 10 },
+            2 => ProgCfg { nframes: 11, nreg: 3, max_len: 14, rf_pct: 50, cf_pct: 12, bad_permille: 10 },
             _ => ProgCfg { nframes: 2, nreg: 1, max_len: 12, rf_pct: 25, cf_pct: 5, bad_permille: 0 },
         };
         let text = program_text(&mut rng, &cfg);
@@ -237,7 +237,7 @@ fn run(ctx: &mut Ctx) {
         let cfg = match i % 3 {
             0 => ProgCfg { nframes: 0, nreg: 3, max_len: 10, rf_pct: 0, cf_pct: 5, bad_permille: 0 },
             1 => ProgCfg { nframes: 3, nreg: 2, max_len: 10, rf_pct: 35, cf_pct: 8, bad_permille: 5 },
-            _ => ProgCfg { nframes: 5, nreg: 3, max_len: 14, rf_pct: 50, cf_pct: 12, bad_permille: 10 },
+            _ => ProgCfg { nframes: 11, nreg: 3, max_len: 14, rf_pct: 50, cf_pct: 12, bad_permille: 10 },
         };
         let text = ast_program_text(&mut rng, &cfg);
         ast_case(ctx, &text);
